@@ -146,7 +146,7 @@ Proof.
       match goal with |- same_result _ _ (match _ with Some _ => do _ <- apply_broken ?A _; _ | None => _ end)
                                          (match _ with Some _ => do _ <- apply_broken ?B _; _ | None => _ end) =>
         assert (S1 : Sim d (S k) A B) end.
-      { destruct SM. constructor; prjs; try assumption; try (cbn [length]; lia).
+      { destruct SM. constructor; prjs; try assumption; try reflexivity; try (cbn [length]; lia).
         - rewrite !qadd_eq, sm_c0. ring.
         - cbn [firstn]. constructor; [|assumption]. unfold shifted. cbn [n_pitch n_start n_end].
           split; [reflexivity|]. split; [assumption|]. rewrite !qadd_eq, sm_c0. ring. }
@@ -154,7 +154,7 @@ Proof.
       * pose proof (sim_apply_broken d (S k) _ _ br S1 ltac:(specialize (BR ltac:(discriminate)); lia)) as AB.
         match type of AB with same_result _ _ ?X ?Y => destruct X as [a2|ea]; destruct Y as [b2|eb] end;
           cbn [same_result bind] in *; try contradiction; [|assumption].
-        destruct AB. constructor; prjs; assumption.
+        destruct AB. constructor; prjs; first [assumption | reflexivity].
       * cbn [same_result]. exact S1.
     + (* plain bar *)
       apply andb_prop in BI. destruct BI as [BI R0]. apply andb_prop in BI. destruct BI as [L0 B1].
@@ -237,3 +237,81 @@ Proof.
     try contradiction; [|assumption].
   destruct R. repeat split; assumption.
 Qed.
+
+(** ** (c) The note-level statement, as far as it is established
+
+    Full statement (NOT proved in general; see notes/C04.md for what is missing):
+
+      forall is,
+        no_inline_fields_in_repeats is = true -> broken_between_notes false is = true ->
+        forall t, parse_items is = Ok t ->
+        exists ids ns t', expand t = Ok (ids, ns) /\ parse_items (unroll_items is) = Ok t' /\
+                          notes_eqb ns (t_notes t') = true.
+
+    i.e. [expansion_check is <> 2].  It is (1) evaluated by the model runner on every
+    generated tune of every check run (a value 2 is reported as a divergence), and
+    (2) proved here by complete enumeration in the kernel for every item list of at most
+    5 tokens over a 13-symbol alphabet (4 notes incl. an accidental and the same letter
+    without one, a broken-rhythm sign, plain / double bars, simple and counted repeat
+    symbols, `:|:` and `::`). *)
+Local Open Scope Z_scope.
+
+Lemma expansion_check_meaning : forall is,
+  expansion_check is <> 2 ->
+  no_inline_fields_in_repeats is = true -> broken_between_notes false is = true ->
+  forall t, parse_items is = Ok t ->
+  exists ids ns t', expand t = Ok (ids, ns) /\ parse_items (unroll_items is) = Ok t' /\
+                    notes_eqb ns (t_notes t') = true.
+Proof.
+  intros is H H1 H2 t P. unfold expansion_check in H. rewrite H1, H2, P in H. cbn [andb] in H.
+  destruct (expand t) as [[ids ns]|e]; [|now contradiction H].
+  destruct (parse_items (unroll_items is)) as [t'|e]; [|now contradiction H].
+  destruct (notes_eqb ns (t_notes t')) eqn:E; [|now contradiction H].
+  exists ids, ns, t'. repeat split; assumption.
+Qed.
+
+Definition sigma13 : list item :=
+  [ITok (TNote ANone 65 [] (mkLen None 0 None)); ITok (TNote ASharp 70 [] (mkLen None 0 None));
+   ITok (TNote ANone 70 [] (mkLen None 1 None)); ITok (TNote ANone 99 [] (mkLen (Some 2) 0 None));
+   ITok (TBroken true 1); ITok (TBar 0 1 0); ITok (TBar 0 2 0); ITok (TBar 0 1 1); ITok (TBar 1 1 0);
+   ITok (TBar 1 1 1); ITok (TColons 2); ITok (TBar 0 1 2); ITok (TBar 2 1 0)].
+
+Fixpoint lists_upto (n : nat) : list (list item) :=
+  match n with
+  | O => [[]]
+  | S k => [] :: flat_map (fun l => map (fun x => x :: l) sigma13) (lists_upto k)
+  end.
+
+Lemma lists_upto_complete : forall n l, (length l <= n)%nat -> Forall (fun x => In x sigma13) l ->
+  In l (lists_upto n).
+Proof.
+  induction n as [|n IH]; intros l L F.
+  - destruct l; [now left|cbn in L; lia].
+  - destruct l as [|x r]; [now left|]. right. cbn [length] in L.
+    inversion F as [|? ? Fx Fr]; subst.
+    apply in_flat_map. exists r. split; [apply IH; [lia|assumption]|].
+    apply in_map_iff. exists x. split; [reflexivity|assumption].
+Qed.
+
+Lemma expansion_enumeration :
+  forallb (fun l => negb (expansion_check (ILine :: l) =? 2)) (lists_upto 5) = true.
+Proof. vm_compute. reflexivity. Qed.
+
+Lemma expansion_notes_bounded : forall l,
+  (length l <= 5)%nat -> Forall (fun x => In x sigma13) l ->
+  let is := ILine :: l in
+  no_inline_fields_in_repeats is = true -> broken_between_notes false is = true ->
+  forall t, parse_items is = Ok t ->
+  exists ids ns t', expand t = Ok (ids, ns) /\ parse_items (unroll_items is) = Ok t' /\
+                    notes_eqb ns (t_notes t') = true.
+Proof.
+  intros l L F is. apply expansion_check_meaning.
+  pose proof expansion_enumeration as E. rewrite forallb_forall in E.
+  specialize (E l (lists_upto_complete 5 l L F)). apply negb_true_iff in E. apply Z.eqb_neq in E. exact E.
+Qed.
+
+(* how many of the enumerated lists satisfy every hypothesis and parse (so the conclusion
+   is not vacuous): at least 20000 *)
+Lemma expansion_enumeration_nonvacuous :
+  (20000 <=? Z.of_nat (length (filter (fun l => expansion_check (ILine :: l) =? 1) (lists_upto 5)))) = true.
+Proof. vm_compute. reflexivity. Qed.
